@@ -101,6 +101,10 @@ def gen(rng, idx, tier, seed):
             spec['conv'] = {'mode': mode, 'weights': w}
         elif fns[0] in ops.REDUCERS:
             spec['form'] = 'reduce_dim'
+            if rng.random() < 0.35:
+                # a reducer that is a numpy / numpy.ma function but not an
+                # array method
+                spec['apply'] = [[chosen[0][0], 'median']]
     return spec
 
 
@@ -127,6 +131,13 @@ def ref_reduce(data, mask, ax, name):
     elif name == 'max':
         small = np.iinfo('i8').min if isint else -np.inf
         v = np.where(m, small, w).max(axis=ax, keepdims=True)
+    elif name == 'median':
+        with np.errstate(all='ignore'):
+            import warnings
+            with warnings.catch_warnings():
+                warnings.simplefilter('ignore')
+                v = np.nanmedian(np.where(m, np.nan, data.astype('f8')),
+                                 axis=ax, keepdims=True)
     else:
         wf = data.astype('f8')
         s = np.where(m, 0, wf).sum(axis=ax, keepdims=True)
